@@ -88,6 +88,13 @@ func genConsts(root *pkgSrc) {
 	for _, c := range codes {
 		cl = append(cl, leanText(c))
 	}
+	nanClamped := false
+	if fd, _ := rp.funcDecl("Config.Validate"); fd != nil {
+		src := rp.text(fd)
+		if strings.Contains(src, "IsNaN") || strings.Contains(src, "!(validated.BackoffFactor >=") {
+			nanClamped = true
+		}
+	}
 	// overflow behaviour of the wait computation in Execute: is the cap applied in the float domain
 	// (before the float64 -> time.Duration conversion) or only afterwards?
 	oz := true
@@ -97,26 +104,24 @@ func genConsts(root *pkgSrc) {
 			oz = false
 		}
 	}
-	nanClamped := false
-	if fd, _ := rp.funcDecl("Config.Validate"); fd != nil {
-		src := rp.text(fd)
-		if strings.Contains(src, "IsNaN") || strings.Contains(src, "!(validated.BackoffFactor >=") {
-			nanClamped = true
-		}
-	}
 	var b strings.Builder
 	b.WriteString(header)
 	b.WriteString("import Mcp.Model.Retry\nnamespace Mcp.Gen\n")
-	fmt.Fprintf(&b, "-- source hash internal/retry: %s\n", hashFiles(rp, rp.sortedFiles()...))
-	fmt.Fprintf(&b, "def retryLimits : Mcp.Retry.Limits :=\n  { minRetries := %s, maxRetries := %s, minInitial := %s, maxInitial := %s,\n    minFactor := %s, maxFactor := %s, maxMaxBackoff := %s,\n    codes := [%s] }\n",
+	fmt.Fprintf(&b, "def retryLimits : Mcp.Retry.Limits :=\n  { minRetries := %s, maxRetries := %s, minInitial := %s, maxInitial := %s,\n    minFactor := %s, maxFactor := %s, maxMaxBackoff := %s,\n    codes := [%s],\n    nanClamped := %s }\n",
 		intLit(constOf(pkg, "MinMaxRetries")), intLit(constOf(pkg, "MaxMaxRetries")),
 		intLit(constOf(pkg, "MinInitialBackoff")), intLit(constOf(pkg, "MaxInitialBackoff")),
 		intLit(constOf(pkg, "MinBackoffFactor")), intLit(constOf(pkg, "MaxBackoffFactor")),
-		intLit(constOf(pkg, "MaxMaxBackoff")), strings.Join(cl, ", "))
+		intLit(constOf(pkg, "MaxMaxBackoff")), strings.Join(cl, ", "), leanBool(nanClamped))
 	fmt.Fprintf(&b, "/-- `Execute` converts the uncapped float product to `time.Duration` before capping (overflow ⇒ zero wait). -/\ndef retryOverflowZero : Bool := %s\n", leanBool(oz))
-	fmt.Fprintf(&b, "/-- `Validate` clamps a NaN factor. -/\ndef retryNanClamped : Bool := %s\n", leanBool(nanClamped))
 	b.WriteString("end Mcp.Gen\n")
 	writeIfChanged("Consts.lean", b.String())
+	var sb strings.Builder
+	sb.WriteString(header)
+	sb.WriteString("namespace Mcp.Gen\n")
+	genSessionFacts(&sb)
+	genHandleGetFacts(root, &sb)
+	sb.WriteString("end Mcp.Gen\n")
+	writeIfChanged("SessionFacts.lean", sb.String())
 }
 
 func evalCodeString(info *types.Info, e ast.Expr) string {
@@ -133,4 +138,100 @@ func evalCodeString(info *types.Info, e ast.Expr) string {
 		}
 	}
 	return "unknown"
+}
+
+// genSessionFacts: how generateSessionID draws and renders an id.
+func genSessionFacts(b *strings.Builder) {
+	sp := loadDir(filepath.Join(*repo, "internal", "session"))
+	nbytes := 0
+	crypto := false
+	hexEnc := false
+	// the import must be crypto/rand (not math/rand)
+	importsCrypto := false
+	for _, f := range sp.files {
+		for _, im := range f.Imports {
+			if im.Path.Value == "\"crypto/rand\"" && (im.Name == nil || im.Name.Name == "rand") {
+				importsCrypto = true
+			}
+			if im.Path.Value == "\"math/rand\"" || im.Path.Value == "\"math/rand/v2\"" {
+				importsCrypto = false
+			}
+		}
+	}
+	if fd, _ := sp.funcDecl("generateSessionID"); fd != nil {
+		var bufName string
+		ast.Inspect(fd, func(n ast.Node) bool {
+			switch x := n.(type) {
+			case *ast.AssignStmt:
+				// bytes := make([]byte, N)
+				if len(x.Lhs) == 1 && len(x.Rhs) == 1 {
+					if call, ok := x.Rhs[0].(*ast.CallExpr); ok {
+						if id, ok := call.Fun.(*ast.Ident); ok && id.Name == "make" && len(call.Args) == 2 {
+							if lit, ok := call.Args[1].(*ast.BasicLit); ok {
+								if v, err := strconv.Atoi(lit.Value); err == nil {
+									if l, ok := x.Lhs[0].(*ast.Ident); ok {
+										bufName = l.Name
+										nbytes = v
+									}
+								}
+							}
+						}
+					}
+				}
+			case *ast.CallExpr:
+				if sel, ok := x.Fun.(*ast.SelectorExpr); ok {
+					if pk, ok := sel.X.(*ast.Ident); ok {
+						if pk.Name == "rand" && sel.Sel.Name == "Read" && len(x.Args) == 1 {
+							if a, ok := x.Args[0].(*ast.Ident); ok && a.Name == bufName && importsCrypto {
+								crypto = true
+							}
+						}
+						if pk.Name == "hex" && sel.Sel.Name == "EncodeToString" && len(x.Args) == 1 {
+							if a, ok := x.Args[0].(*ast.Ident); ok && a.Name == bufName {
+								hexEnc = true
+							}
+						}
+					}
+				}
+			}
+			return true
+		})
+		// the function must return the hex string directly
+		if hexEnc {
+			hexEnc = false
+			for _, st := range fd.Body.List {
+				if r, ok := st.(*ast.ReturnStmt); ok && len(r.Results) == 1 {
+					if call, ok := r.Results[0].(*ast.CallExpr); ok {
+						if sel, ok := call.Fun.(*ast.SelectorExpr); ok && sel.Sel.Name == "EncodeToString" {
+							hexEnc = true
+						}
+					}
+				}
+			}
+		}
+	}
+	// NewSession must use generateSessionID for the ID field
+	usesGen := false
+	if fd, _ := sp.funcDecl("NewSession"); fd != nil {
+		usesGen = strings.Contains(sp.text(fd), "ID:           generateSessionID()") || strings.Contains(strings.Join(strings.Fields(sp.text(fd)), " "), "ID: generateSessionID()")
+	}
+	if !usesGen {
+		nbytes = 0
+	}
+	fmt.Fprintf(b, "/-- `generateSessionID`: number of random bytes, their source, their rendering (0/false = not recognised). -/\ndef sessionIdBytes : Nat := %d\ndef sessionIdFromCryptoRand : Bool := %s\ndef sessionIdHexEncoded : Bool := %s\n", nbytes, leanBool(crypto), leanBool(hexEnc))
+}
+
+// genHandleGetFacts: structural facts about streamable_server.go handleGet.
+func genHandleGetFacts(root *pkgSrc, b *strings.Builder) {
+	guards := false
+	if fd, _ := root.funcDecl("httpServerHandler.handleGet"); fd != nil {
+		src := root.text(fd)
+		use := strings.Index(src, "h.sessionManager.getSession")
+		for _, g := range []string{"h.sessionManager == nil", "!h.enableSession"} {
+			if i := strings.Index(src, g); i >= 0 && (use < 0 || i < use) {
+				guards = true
+			}
+		}
+	}
+	fmt.Fprintf(b, "/-- `handleGet` checks for a disabled session manager before using it. -/\ndef handleGetGuardsNoSessions : Bool := %s\n", leanBool(guards))
 }
